@@ -583,6 +583,9 @@ func runC10(ctx *Ctx) {
 		if ctx.Want(900000 + c) {
 			contractCase(ctx, 900000+c, ctx.Sub(900000+c), "settle-in-flight", "c10-")
 		}
+		if ctx.Want(900100 + c) {
+			contractCase(ctx, 900100+c, ctx.Sub(900100+c), "two-spellings", "c10-")
+		}
 	}
 	n := ctx.N(120, 3000)
 	forEachCase(ctx, n, func(i int, rng *rand.Rand) { c10Snapshots(ctx, i, rng) })
